@@ -2,13 +2,14 @@ from propcommon import *  # noqa
 
 CFG = dict(
     level="proof",
-    lean_modules=["ElysModel.Props.C01"],
-    props_files=["ElysModel/Props/C01.lean"],
+    lean_modules=["ElysModel.Props.C01", "ElysModel.Props.C01Src"],
+    pre_cmds=[GO2LEAN],
+    props_files=["ElysModel/Props/C01.lean", "ElysModel/Props/C01Src.lean"],
     runs=[scn_run("c01"), hist_run(), gentrip_run(focus="amm."), govamm_run(focus="amm."), hist_run(nq=150, nt=300, sq=6, st=8, focus="perp.")],
     rule=HIST_RULE + "; plus the directed scenarios (mode scn) that replay known multi-step histories",
-    trusted_base=COMMON_TB + ["primitive pool ops are recognised from x/bank's own transfer events whose sender or recipient is a pool address; "
+    trusted_base=COMMON_TB + [SRC_TB, "primitive pool ops are recognised from x/bank's own transfer events whose sender or recipient is a pool address; "
                               "a MsgSend by a user to a pool address is a donation"],
-    assumptions=["pools created during a history are not tracked (the grammar creates none)"],
+    assumptions=[SRC_ASSUME, "pools created during a history are not tracked (the grammar creates none)"],
     explanation="Theorems: bank balance at the pool address = book reserve + donations and denom liquidity = sum of reserves are preserved by every "
                 "primitive pool op, hence by every atomic macro-op and every history (induction), for all amounts; witness of the pre-repair exit defect. "
                 "Model tied to the code by block-by-block replay; predicates evaluated on every observed block.",
